@@ -77,7 +77,9 @@ def gen_case(rnd):
     shared_kw = {"stepsize": 0.25, "online_thinning": 2, "disable_progressbar": True}
     means = [[rnd.randint(-8, 8) / 8.0 for _ in range(d)] for _ in range(n)]
     return {"n": n, "d": d, "P": P, "kinds": kinds, "seeds": seeds, "im_mode": im_mode, "kw_mode": kw_mode, "ims": ims, "kws": kws,
-            "shared_kw": shared_kw, "means": means, "prior_run": rnd.random() < 0.4}
+            "shared_kw": shared_kw, "means": means, "prior_run": rnd.random() < 0.4,
+            # an exchange interval left over from a tempering set-up (dividing the proposal count or not); exchange stays off
+            "exchange_interval": rnd.choice([None, None, 1, 2, 4, 5, 7])}
 
 
 def run_case(c, wd, idx):
@@ -105,8 +107,9 @@ def run_case(c, wd, idx):
         ctrl = S.ParallelSampleSMP(seed=1)
         try:
             with alarm(180):
+                extra = {} if c.get("exchange_interval") is None else {"exchange_interval": c["exchange_interval"]}
                 ctrl.sample(samplers, files, posteriors, overwrite_existing_files=True, proposals=c["P"], exchange=False,
-                            initial_model=copy.deepcopy(im), kwargs=copy.deepcopy(kw))
+                            initial_model=copy.deepcopy(im), kwargs=copy.deepcopy(kw), **extra)
         except Watchdog:
             return [("parallel-hang", f"ParallelSampleSMP without exchange did not finish within 180 s ({c['n']} chains)")]
         except Exception as e:  # noqa
